@@ -5,6 +5,16 @@ from common import Rng
 
 import pytrs
 
+
+def safely(rep, what, f, *a):
+    """run one oracle check; an exception escaping the library is itself a failing input for the observables"""
+    try:
+        return f(rep, *a)
+    except Exception as e:  # noqa
+        rep.violation('failing-input', {'check': what, 'args': [str(x)[:300] for x in a], 'why': f'raised {type(e).__name__}: {e}'})
+        return None
+
+
 RULE = ("item lists (single | ascending | descending range) of 1-6 items rendered with independent connective / keyword "
         "spellings; non-trivial = the list contains at least one range or two items; distinct by rendered text")
 TRUSTED = ["C05: lexical hypothesis LexList (what multisec_regex/multilot_regex return at each endpos) is monitored by "
@@ -66,7 +76,7 @@ def run(ctx):
         r = rng.fork(i)
         items = gen.rand_items(r, r.range(1, 6), 99)
         text = gen.render_items(items, r, SEC_WORDS, pad=True)
-        oracle_sections(rep, text, items, ctx)
+        safely(rep, 'sections', oracle_sections, text, items, ctx)
         items_cmp.append((impl.line_sec_unpack(text), impl.impl_sec_unpack(text), {'op': 'sec.unpack', 'text': text}))
         items_cmp.append((impl.line_find_sec(text), impl.impl_find_sec(text), {'op': 'find_sec', 'text': text}))
         rep.sample({'sections': text, 'denotes': gen.expand_items(items)}, cap=3)
@@ -75,7 +85,7 @@ def run(ctx):
         rep.dist('c05_items', len(items))
         litems = gen.rand_items(r, r.range(1, 5), r.choice([12, 99, 999]))
         ltext = gen.render_items(litems, r, LOT_WORDS)
-        oracle_lots(rep, ltext, litems)
+        safely(rep, 'lots', oracle_lots, ltext, litems)
         items_cmp.append((impl.line_lot_unpack(ltext), impl.impl_lot_unpack(ltext), {'op': 'lot.unpack', 'text': ltext}))
         a = (ltext, False, False, 2, None, None, False)
         items_cmp.append((impl.line_tract_parse(*a), impl.impl_tract_parse(*a), {'op': 'tract.parse', 'text': ltext}))
